@@ -18,9 +18,12 @@ Variable lower : str -> str.
 Definition is_hop (o : pyobj) : bool :=
   match o with PStr k => existsb (beqb (lower k)) hop_by_hop | PNonStr => false end.
 
+Definition not_token (o : pyobj) : bool :=
+  match o with PStr k => negb (is_token k) | PNonStr => false end.
+
 (* a (name, value) pair that start_response must refuse *)
 Definition bad_header (h : pyobj * pyobj) : bool :=
-  bad_obj (fst h) || bad_obj (snd h) || is_hop (fst h).
+  bad_obj (fst h) || bad_obj (snd h) || not_token (fst h) || is_hop (fst h).
 
 Definition offending (status : pyobj) (headers : list (pyobj * pyobj)) : bool :=
   bad_obj status || existsb bad_header headers.
@@ -39,6 +42,7 @@ Proof.
   - cbn. tauto.
   - destruct k as [k|]; [|cbn; tauto]. destruct v as [v|]; [|cbn; tauto].
     destruct (has_crlf v); [cbn; tauto|]. destruct (has_crlf k); [cbn; tauto|].
+    destruct (negb (is_token k)); [cbn; tauto|].
     destruct (beqb (lower k) _).
     + destruct (py_int v); [|cbn; tauto].
       specialize (IH (set_clen (Some z) t) (acc ++ [(k, v)])). cbn zeta in IH. exact IH.
@@ -54,7 +58,8 @@ Proof.
   destruct v as [v|]; [|eexists; split; [reflexivity|auto]].
   destruct (has_crlf v) eqn:Ev; [eexists; split; [reflexivity|auto]|].
   destruct (has_crlf k) eqn:Ek; [eexists; split; [reflexivity|auto]|].
-  unfold bad_header in H at 1. cbn [fst snd bad_obj is_hop] in H. rewrite Ev, Ek in H. cbn [orb] in H.
+  unfold bad_header in H at 1. cbn [fst snd bad_obj is_hop not_token] in H. rewrite Ev, Ek in H. cbn [orb] in H.
+  destruct (negb (is_token k)) eqn:Et; [eexists; split; [reflexivity|auto]|]. cbn [orb] in H.
   destruct (beqb (lower k) _) eqn:Ecl.
   - rewrite (cl_not_hop _ Ecl) in H. cbn [orb] in H.
     destruct (py_int v); [|eexists; split; [reflexivity|auto]]. apply IH; auto.
@@ -69,7 +74,8 @@ Proof.
   - inversion H. cbn. rewrite app_nil_r. auto.
   - destruct k as [k|]; [|discriminate]. destruct v as [v|]; [|discriminate].
     destruct (has_crlf v) eqn:Ev; [discriminate|]. destruct (has_crlf k) eqn:Ek; [discriminate|].
-    cbn [existsb]. unfold bad_header at 1. cbn [fst snd bad_obj is_hop]. rewrite Ev, Ek. cbn [orb].
+    destruct (negb (is_token k)) eqn:Et; [discriminate|].
+    cbn [existsb]. unfold bad_header at 1. cbn [fst snd bad_obj is_hop not_token]. rewrite Ev, Ek, Et. cbn [orb].
     destruct (beqb (lower k) _) eqn:Ecl.
     + rewrite (cl_not_hop _ Ecl). cbn [orb].
       destruct (py_int v); [|discriminate]. apply IH in H as [-> ->].
@@ -96,7 +102,7 @@ Proof.
                        else let t3 := set_status s t2 in
                             match sr_headers lower t3 headers [] with
                             | (t4, Ok hs) => (set_rh (t_rh t4 ++ hs) t4, Ok tt)
-                            | (t4, Exn e0) => (t4, Exn e0)
+                            | (t4, Exn e0) => (set_clen (t_clen t3) t4, Exn e0)
                             end
            | PNonStr => (t2, Exn AssertionError)
            end) = Exn e /\ (e = AssertionError \/ e = ValueError)).
@@ -108,7 +114,7 @@ Proof.
   destruct exc as [e0|].
   - destruct (t_wrote_header t) eqn:Ew.
     + exists e0. split; [reflexivity|discriminate].
-    + destruct (Hgo (set_rh [] t)) as (e & He & Hc). exists e. split; auto.
+    + destruct (Hgo (set_clen None (set_rh [] t))) as (e & He & Hc). exists e. split; auto.
   - destruct (Hgo t) as (e & He & Hc). exists e. split; auto.
 Qed.
 
@@ -125,14 +131,14 @@ Theorem start_response_ok t status headers exc t' :
 Proof.
   unfold start_response. intro H.
   destruct (t_complete t && _); [discriminate|].
-  set (t1 := match exc with Some _ => if t_wrote_header t then t else set_rh [] t | None => t end).
+  set (t1 := match exc with Some _ => if t_wrote_header t then t else set_clen None (set_rh [] t) | None => t end).
   assert (H1 : (let t2 := set_complete true t1 in
            match status with
            | PStr s => if has_crlf s then (t2, Exn ValueError)
                        else let t3 := set_status s t2 in
                             match sr_headers lower t3 headers [] with
                             | (t4, Ok hs) => (set_rh (t_rh t4 ++ hs) t4, Ok tt)
-                            | (t4, Exn e0) => (t4, Exn e0)
+                            | (t4, Exn e0) => (set_clen (t_clen t3) t4, Exn e0)
                             end
            | PNonStr => (t2, Exn AssertionError)
            end) = (t', Ok tt) /\ (exc <> None -> t_wrote_header t = false)).
@@ -157,6 +163,7 @@ Proof.
   induction hs as [|[k v] hs IH]; cbn [existsb strs_of map]; intro H; [constructor|].
   apply orb_false_iff in H as [H1 H2]. constructor; auto.
   unfold bad_header in H1. cbn [fst snd] in *. apply orb_false_iff in H1 as [H1 _].
+  apply orb_false_iff in H1 as [H1 _].
   apply orb_false_iff in H1 as [Hk Hv].
   destruct k, v; try discriminate. split; assumption.
 Qed.
@@ -166,7 +173,7 @@ Theorem start_response_clean t status headers exc :
 Proof.
   intros [Hs Hf]. unfold start_response.
   destruct (t_complete t && _); [split; auto|].
-  set (t1 := match exc with Some _ => if t_wrote_header t then t else set_rh [] t | None => t end).
+  set (t1 := match exc with Some _ => if t_wrote_header t then t else set_clen None (set_rh [] t) | None => t end).
   assert (C1 : task_clean t1).
   { subst t1. destruct exc; [destruct (t_wrote_header t)|]; split; auto; try constructor. }
   assert (G : task_clean (fst (let t2 := set_complete true t1 in
@@ -175,7 +182,7 @@ Proof.
                        else let t3 := set_status s t2 in
                             match sr_headers lower t3 headers [] with
                             | (t4, Ok hs) => (set_rh (t_rh t4 ++ hs) t4, @Ok unit tt)
-                            | (t4, Exn e0) => (t4, Exn e0)
+                            | (t4, Exn e0) => (set_clen (t_clen t3) t4, Exn e0)
                             end
            | PNonStr => (t2, Exn AssertionError)
            end))).
@@ -187,7 +194,7 @@ Proof.
     - apply sr_headers_ok in Esr as [-> Hb]. split; cbn [t_status t_rh set_rh].
       + rewrite F2. exact Es.
       + rewrite F1. apply Forall_app. split; auto. apply strs_of_clean; auto.
-    - split. rewrite F2. exact Es. rewrite F1. auto. }
+    - split; cbn [t_status t_rh set_clen]. rewrite F2. exact Es. rewrite F1. auto. }
   subst t1. destruct exc as [e0|]; [destruct (t_wrote_header t)|]; auto; split; auto.
 Qed.
 
@@ -204,7 +211,7 @@ Proof.
                        else let t3 := set_status s t2 in
                             match sr_headers lower t3 headers [] with
                             | (t4, Ok hs) => (set_rh (t_rh t4 ++ hs) t4, @Ok unit tt)
-                            | (t4, Exn e0) => (t4, Exn e0)
+                            | (t4, Exn e0) => (set_clen (t_clen t3) t4, Exn e0)
                             end
            | PNonStr => (t2, Exn AssertionError)
            end) in
@@ -216,8 +223,8 @@ Proof.
       destruct F as (_ & _ & _ & F4 & F5 & F6 & F7 & F8); cbn in *; tauto. }
   destruct exc as [e0|]; [destruct (t_wrote_header t) eqn:Ew|].
   - cbn. tauto.
-  - pose proof (G (set_rh [] t)) as G1. cbn zeta in G1.
-    change (t_wrote_header (set_rh [] t)) with (t_wrote_header t) in G1. rewrite Ew in G1. exact G1.
+  - pose proof (G (set_clen None (set_rh [] t))) as G1. cbn zeta in G1.
+    change (t_wrote_header (set_clen None (set_rh [] t))) with (t_wrote_header t) in G1. rewrite Ew in G1. exact G1.
   - apply G.
 Qed.
 
